@@ -161,6 +161,36 @@ def run(F, ck, tier):
 
     # ---------------------------------------------------------------- R17.4
     registries(F, ck)
+    # ---------------------------------------------------------------- R17.5
+    ck.rule('R17.5', 'proof decoder lengths equal the circuit\'s own length definitions (FRI oracle table, shape validator), compared as polynomials over type-qualified struct fields')
+    from . import lengths
+    lengths.check(F, ck, 'R17.5')
+    # ---------------------------------------------------------------- R17.6
+    ck.rule('R17.6', 'a decoder that reads circuit data and a proof from one stream reads the proof with THAT circuit data (the writer stored them together), not with the enclosing circuit\'s')
+    PROOF_READS = {'read_proof_with_public_inputs', 'read_compressed_proof_with_public_inputs', 'read_proof', 'read_compressed_proof'}
+    DATA_READS = {'read_verifier_circuit_data', 'read_common_circuit_data', 'read_circuit_data', 'read_prover_circuit_data', 'read_verifier_only_circuit_data'}
+    nn = 0
+    for fn in sorted(F.fns.values(), key=lambda f: f.qual):
+        if fn.crate not in ('plonky2', 'starky') or fn.body is None or fn.name.startswith('read_'):
+            continue
+        names = {x.get('n') for x in walk(fn.body) if x.get('k') == 'MCall'}
+        if not (names & PROOF_READS) or not (names & DATA_READS):
+            continue
+        fl = flow.Flow(F, fn, opaque=('Buffer',))
+        seen_data = []
+        for e in fl.events:
+            if e.kind != 'call':
+                continue
+            if e.name in DATA_READS:
+                seen_data.append(e.name)
+            elif e.name in PROOF_READS and seen_data:
+                nn += 1
+                d = e.deps()
+                ok = any(flow.has_call(d, x) for x in seen_data)
+                ck.ob('R17.6', 'nested:%s:%s' % (fn.qual, e.name), ok, 'proof decoded with the circuit data read from the same stream' if ok else
+                      'NESTED DECODE WITH THE WRONG CIRCUIT: %s reads circuit data (%s) and then a proof from the same stream, but decodes the proof with lengths taken from somewhere else: '
+                      'the stored proof belongs to the stored circuit, so whenever the two circuits differ in shape the restored object is garbage or the decode fails' % (fn.qual, ', '.join(seen_data)), e.loc())
+    ck.floor('R17.6', 'decoders that read both circuit data and a proof', nn, 1)
     ck.decided += ['all reader/writer pairs have the same grammar', 'field order agrees', 'writers cover every field', 'registries exhaustive and consistent']
     ck.undecided += ['round-trip equality of values', 'interchangeability of restored circuits (behavioural)']
     return 'Decides structural necessary conditions of C17: grammar and field-order agreement of all reader/writer pairs, writer field coverage, registry exhaustiveness. Behavioural interchangeability is not decided.'
